@@ -1,8 +1,26 @@
 import Genshi.Wire
+import Genshi.Model.PyGen
+import Driver.PyWire
 namespace Driver.C13
-open Genshi
+open Genshi Genshi.Py Genshi.Sexp Driver.PyWire
 
-/-- stub: the model driver for C13 is not built yet -/
-def handle : List Sexp → Option Sexp := fun _ => none
+/-- `gen tree` / `genS (stmt…)`: the tokens of the regenerated source, `raises` when the model
+    says the generator raises, `unmodelled` when the tree is outside the modelled syntax -/
+def handle : List Sexp → Option Sexp
+  | [.atom "gen", t] =>
+      match decE t with
+      | none => some (.atom "unmodelled")
+      | some e =>
+        match genE e with
+        | none => some (.atom "raises")
+        | some toks => some (.list [.atom "ok", .list (toks.map encTok)])
+  | [.atom "genS", .list ss] =>
+      match ss.mapM decS with
+      | none => some (.atom "unmodelled")
+      | some body =>
+        match genModule body with
+        | none => some (.atom "raises")
+        | some ls => some (.list [.atom "ok", .list (ls.map encLine)])
+  | _ => none
 
 end Driver.C13
